@@ -381,6 +381,49 @@ static int frames_match(const unsigned char *buf, long len, int sd, const unsign
    return 1;
 }
 
+/* Extension carriage (out_roundtrip_ext), evaluated on the implementation: the extensions read from the output's padding
+   must be, frame by frame and in order, the caller's extensions followed by those read from the stored packets that
+   overlap [b,e), renumbered frame+i-b and kept iff in [0,e-b) (a stored padding that does not parse contributes none). */
+typedef struct { int start, count; const unsigned char *pad; opus_int32 padlen; } spk;
+#define MAXX 600
+static int exts_match(const unsigned char *buf, long len, int sd, int b, int e, const spk *pk, int npk,
+                      const opus_extension_data *ex, int ne, char *obs)
+{
+   static opus_extension_data want[MAXX], got[MAXX], tmp[MAXX];
+   const unsigned char *f[48], *pd = NULL; opus_int16 s[48]; unsigned char tc; opus_int32 pl = 0, po = 0, ng; int c, i, k, nw = 0, fr;
+   for (i = 0; i < ne && nw < MAXX; i++) want[nw++] = ex[i];
+   for (k = 0; k < npk; k++) {
+      opus_int32 n; int ret;
+      if (pk[k].start >= e || pk[k].start + pk[k].count <= b) continue;
+      n = opus_packet_extensions_count(pk[k].pad, pk[k].padlen, pk[k].count);
+      if (n <= 0) continue; if (n > MAXX) return 1;   /* too many to check here */
+      ret = opus_packet_extensions_parse(pk[k].pad, pk[k].padlen, tmp, &n, pk[k].count);
+      if (ret < 0) continue;
+      for (i = 0; i < n; i++) { int fr2 = tmp[i].frame + pk[k].start; if (fr2 < b || fr2 >= e) continue; if (nw >= MAXX) return 1;
+         want[nw] = tmp[i]; want[nw].frame = fr2 - b; nw++; }
+   }
+   c = opus_packet_parse_impl(buf, (opus_int32)len, sd, &tc, f, s, NULL, &po, &pd, &pl);
+   if (c < 1) { sprintf(obs, "output does not parse"); return 0; }
+   ng = opus_packet_extensions_count(pd, pl, c);
+   if (ng < 0 || ng > MAXX) { sprintf(obs, "extension count of the output padding = %d", ng); return ng > MAXX; }
+   if (ng != nw) { sprintf(obs, "output carries %d extensions, %d expected", ng, nw); return 0; }
+   if (ng == 0) return 1;
+   if (opus_packet_extensions_parse(pd, pl, got, &ng, c) < 0) { sprintf(obs, "output padding does not parse as extensions"); return 0; }
+   for (fr = 0; fr < c; fr++) {
+      int a = 0, g = 0;
+      for (;;) {
+         while (a < nw && want[a].frame != fr) a++;
+         while (g < ng && got[g].frame != fr) g++;
+         if (a >= nw && g >= ng) break;
+         if (a >= nw || g >= ng) { sprintf(obs, "frame %d: different number of extensions", fr); return 0; }
+         if (want[a].id != got[g].id || want[a].len != got[g].len || (want[a].len > 0 && memcmp(want[a].data, got[g].data, want[a].len)))
+            { sprintf(obs, "frame %d: extension id %d len %d expected, id %d len %d found (or payload differs)", fr, want[a].id, want[a].len, got[g].id, got[g].len); return 0; }
+         a++; g++;
+      }
+   }
+   return 1;
+}
+
 static opus_int32 call_out(OpusRepacketizer *rp, const op *o, int b, int e, unsigned char *buf, long ml, int pad)
 {
    if (o->t == 'o') return opus_repacketizer_out(rp, buf, (opus_int32)ml);
@@ -400,14 +443,14 @@ static int judge_seq(op *ops, int nops, long *classes)
 {
    static unsigned char out[BIG + GUARD], out2[BIG + GUARD];
    OpusRepacketizer rp; unsigned char *copies[40]; int k, j, anyext = 0, wit = 0; char obs[300];
-   const unsigned char *sf[48]; int sl[48], snb = 0; unsigned char stoc = 0;
+   const unsigned char *sf[48]; int sl[48], snb = 0; unsigned char stoc = 0; spk pks[48]; int npk = 0;
    if (nops > 40) nops = 40;
    if (jlines) { printf("J repack seq"); for (k = 0; k < nops; k++) { putchar(' '); pr_op(&ops[k]); } printf("\n"); fflush(stdout); }
    memset(copies, 0, sizeof copies); memset(&rp, 0, sizeof rp);
    opus_repacketizer_init(&rp);
    for (k = 0; k < nops && !wit; k++) {
       op *o = &ops[k]; int upto = k + 1;
-      if (o->t == 'i') { opus_repacketizer_init(&rp); snb = 0; anyext = 0; }
+      if (o->t == 'i') { opus_repacketizer_init(&rp); snb = 0; anyext = 0; npk = 0; }
       else if (o->t == 'n') {
          int nb = opus_repacketizer_get_nb_frames(&rp);
          if (nb != snb) { sprintf(obs, "nb_frames=%d, %d frames accepted", nb, snb); wit_seq("nb-frames", ops, upto, "nb_frames counts the accepted frames", obs); wit = 1; }
@@ -427,6 +470,8 @@ static int judge_seq(op *ops, int nops, long *classes)
                if (before != after || (before > 0 && memcmp(out, out2, before))) { wit_seq("cat-reject-unchanged", ops, upto, "rejected cat leaves contents unchanged", "out differs"); wit = 1; } }
          } else {
             if (snb == 0) stoc = tc;
+            if (npk < 48) { const unsigned char *f2[48]; opus_int16 s2[48]; unsigned char t2; pks[npk].start = snb; pks[npk].count = c;
+               opus_packet_parse_impl(copies[k], (opus_int32)o->plen, 0, &t2, f2, s2, NULL, NULL, &pks[npk].pad, &pks[npk].padlen); npk++; }
             for (i = 0; i < c && snb < 48; i++) { sf[snb] = f[i]; sl[snb] = s[i]; snb++; }
             if (opus_repacketizer_get_nb_frames(&rp) != snb) { sprintf(obs, "nb_frames=%d, expected %d", opus_repacketizer_get_nb_frames(&rp), snb); wit_seq("nb-frames", ops, upto, "accepted cat adds the packet's frames", obs); wit = 1; }
             if (has_ext(copies[k], o->plen)) anyext = 1;
@@ -451,6 +496,7 @@ static int judge_seq(op *ops, int nops, long *classes)
             continue;   /* passed-in extensions may be invalid for this range: refusing them is legitimate */
          }
          if (!frames_match(out, big, sd, sf + b, sl + b, e - b, stoc, obs)) { wit_seq("out-roundtrip", ops, upto, "output parses back to the selected frames, byte for byte, same configuration bits", obs); wit = 1; continue; }
+         if (!exts_match(out, big, sd, b, e, pks, npk, o->t == 'R' ? o->ex : NULL, ne, obs)) { wit_seq("out-extensions", ops, upto, "the output carries, per frame and in order, the caller's extensions and those of the selected frames (renumbered), with identical payloads", obs); wit = 1; continue; }
          if (!extcase && !sd && big > 1277 * (e - b)) { sprintf(obs, "ret=%d > 1277*%d", big, e - b); wit_seq("out-size", ops, upto, "1277 bytes per selected frame suffice", obs); wit = 1; continue; }
          /* the requested call */
          memset(out2, GB, mlz + GUARD);
@@ -459,6 +505,7 @@ static int judge_seq(op *ops, int nops, long *classes)
          if (wit) continue;
          if (r2 > ml) { sprintf(obs, "ret=%d > maxlen=%ld", r2, ml); wit_seq("out-size", ops, upto, "output never exceeds maxlen", obs); wit = 1; continue; }
          if (r2 > 0 && !frames_match(out2, r2, sd, sf + b, sl + b, e - b, stoc, obs)) { wit_seq("out-roundtrip", ops, upto, "output parses back to the selected frames, byte for byte, same configuration bits", obs); wit = 1; continue; }
+         if (r2 > 0 && !exts_match(out2, r2, sd, b, e, pks, npk, o->t == 'R' ? o->ex : NULL, ne, obs)) { wit_seq("out-extensions", ops, upto, "the output carries, per frame and in order, the caller's extensions and those of the selected frames (renumbered), with identical payloads", obs); wit = 1; continue; }
          if (r2 > 0 && pad && r2 != ml) { sprintf(obs, "ret=%d maxlen=%ld", r2, ml); wit_seq("out-pad-size", ops, upto, "with pad the output has exactly maxlen bytes", obs); wit = 1; continue; }
          if (!extcase) {
             if (ml < big) { if (r2 != OPUS_BUFFER_TOO_SMALL) { sprintf(obs, "ret=%d with maxlen=%ld, minimal size %d", r2, ml, big); wit_seq("out-size", ops, upto, "maxlen below the minimal size is refused with BUFFER_TOO_SMALL", obs); wit = 1; continue; } }
